@@ -307,5 +307,37 @@ int main() {
       jsonEntryPoints(w, doc, "mut");
     }
   }
+  // model documents (schema + data array): the valid one and tree-level mutations of the data entries
+  {
+    const nlohmann::ordered_json valid = w.model;
+    jsonEntryPoints(w, valid.dump(), "model-valid");
+    for (int i = 0; i < (deep ? 600 : 120); ++i) {
+      auto j = valid;
+      std::string cls = "model-mut";
+      if (j.contains("data") && j["data"].is_array() && !j["data"].empty()) {
+        auto& data = j["data"];
+        auto& entry = data[static_cast<size_t>(rng.range(0, static_cast<int>(data.size()) - 1))];
+        switch (rng.range(0, 9)) {
+        default:
+        case 0: entry["entityUID"] = 123456789U; cls += ":unknown-uid"; break;
+        case 1: entry["texts"] = nlohmann::ordered_json::array({ "a", "b" }); cls += ":texts-anywhere"; break;
+        case 2: entry["value"] = true; cls += ":value-bool"; break;
+        case 3: entry["value"] = nlohmann::ordered_json::array({ nlohmann::ordered_json::array({ 1, 2, 3 }), nlohmann::ordered_json::array({ 7 }) }); cls += ":value-ragged"; break;
+        case 4: entry["value"] = nlohmann::ordered_json::array(); cls += ":value-empty"; break;
+        case 5: entry.erase("wasCalculated"); cls += ":no-flag"; break;
+        case 6: entry["wasCalculated"] = "yes"; cls += ":flag-string"; break;
+        case 7: data.push_back(entry); cls += ":repeated-entry"; break;
+        case 8: entry["value"] = nlohmann::ordered_json::array({ nlohmann::ordered_json::array({ 1, -5, 2147483647 }) }); cls += ":value-odd-numbers"; break;
+        case 9: entry["texts"] = 5; cls += ":texts-number"; break;
+        }
+      }
+      if (rng.chance(1, 5) && j.contains("items") && !j["items"].empty()) {
+        auto& item = j["items"][static_cast<size_t>(rng.range(0, static_cast<int>(j["items"].size()) - 1))];
+        if (rng.chance(1, 2)) item["cstType"] = "function"; else item["entityUID"] = 7U;
+        cls += "+item";
+      }
+      jsonEntryPoints(w, j.dump(), cls);
+    }
+  }
   return 0;
 }
